@@ -39,6 +39,7 @@ MAY_PANIC = {
     "chrono::time_delta::TimeDelta::seconds": "out of range",
     "chrono::time_delta::TimeDelta::milliseconds": "out of range",
     "rand::rng::Rng::gen_range": "empty range",
+    "core::fmt::rt::Argument::<'_>::from_usize": "a run-time width or precision above u16::MAX panics in core::fmt",
     "std::io::stdio::_print": "stdout write failure",
     "std::io::stdio::_eprint": "stderr write failure",
     "std::thread::local::LocalKey::<T>::with": "TLS destroyed",
